@@ -32,10 +32,11 @@ Example C13_example :
   map d_final (dtasks s) = [Some OResult].
 Proof. vm_compute. repeat split; reflexivity. Qed.
 
-(** Monitor soundness, PARTIAL: on a stream of the model the monitor never reports the clauses C13_not_forgotten_live and C13_re_never_raises (the two remaining clauses are checked at run time only). *)
-From TP Require PMonSound_C13 PObs PMon.
-Theorem mon_sound : forall c tr, clean (run c tr) -> taint_self (run c tr) = false -> forall j cl, PMon.mon_run c 13 (PMon.trk_init c) 0 (PObs.observe c tr) = Some (j, cl) -> cl = PMon.C13_forgotten_finished \/ cl = PMon.C13_inflight_kept.
-Proof. intros c tr Hc Ht j cl H. exact (PMonSound_C13.mon_C13_sound_partial c tr Hc Ht j cl H). Qed.
+
+(** Monitor soundness: the extracted monitor for C13 (all four clauses) never rejects a stream of the model (P-self). *)
+From TP Require PMonSound13_C13 PObs PMon.
+Theorem mon_sound : forall c tr, clean (run c tr) -> taint_self (run c tr) = false -> PMon.ok_C13 c (PObs.observe c tr) = true.
+Proof. exact PMonSound13_C13.mon_C13_sound. Qed.
 
 Print Assumptions C13_step.
 Print Assumptions C13_trace.
